@@ -17,8 +17,8 @@ import (
 
 type writeRoles struct {
 	valWriter, rootWriter, itemWriter, nodeWriter *ssa.Function
-	itemPass, nodePass, writeBoth                *ssa.Function
-	problems                                     []string
+	itemPass, nodePass, writeBoth                 *ssa.Function
+	problems                                      []string
 }
 
 func refsGlobal(fn *ssa.Function, name string) bool {
@@ -796,56 +796,58 @@ func ruleO5(w *World, r *Report) {
 			if !ok {
 				return
 			}
-			c, pol := Guard{Cond: ifi.Cond, Pol: true}.atom()
-			for _, ak := range atomKinds {
-				if !ak.match(w, f, c) {
-					continue
-				}
-				counts[ak.name]++
-				key := fmt.Sprintf("%s › atom %s #%d", w.Name(f), ak.name, counts[ak.name])
-				// which arm is the failing arm?  the arm where the comparison is false for
-				// ==-style / true for !=-style, < for >=-style …
-				passTrue := atomPassesWhenTrue(c)
-				failIdx := 1
-				if !passTrue {
-					failIdx = 0
-				}
-				if !pol {
-					failIdx = 1 - failIdx
-				}
-				failBlock := in.Block().Succs[failIdx]
-				// from the failing arm: no accepting call and no positive return without
-				// passing this very test again
-				var badWhy string
-				wk := &Walker{Fn: f}
-				wk.OnInstr = func(env *Env, x ssa.Instruction, trail []*ssa.BasicBlock) bool {
-					if x == ssa.Instruction(ifi) {
-						return true // re-tested
+			c0, pol0 := Guard{Cond: ifi.Cond, Pol: true}.atom()
+			for _, at := range boolAtoms(c0, pol0, 0) {
+				c, pol := at.Cond, at.Pol
+				for _, ak := range atomKinds {
+					if !ak.match(w, f, c) {
+						continue
 					}
-					if cc, ok := x.(*ssa.Call); ok {
-						if g := cc.Common().StaticCallee(); g != nil && accepting[g] && g != f {
-							badWhy = "the failing arm can still call " + w.Name(g) + ", which installs the decoded collections"
+					counts[ak.name]++
+					key := fmt.Sprintf("%s › atom %s #%d", w.Name(f), ak.name, counts[ak.name])
+					// which arm is the failing arm?  the arm where the comparison is false for
+					// ==-style / true for !=-style, < for >=-style …
+					passTrue := atomPassesWhenTrue(c)
+					failIdx := 1
+					if !passTrue {
+						failIdx = 0
+					}
+					if !pol {
+						failIdx = 1 - failIdx
+					}
+					// from the failing arm: no accepting call and no positive return without
+					// passing this very test again
+					var badWhy string
+					wk := &Walker{Fn: f}
+					wk.OnInstr = func(env *Env, x ssa.Instruction, trail []*ssa.BasicBlock) bool {
+						if x == ssa.Instruction(ifi) {
+							return true // re-tested
+						}
+						if cc, ok := x.(*ssa.Call); ok {
+							if g := cc.Common().StaticCallee(); g != nil && accepting[g] && g != f {
+								badWhy = "the failing arm can still call " + w.Name(g) + ", which installs the decoded collections"
+								return true
+							}
+						}
+						if st, base, ok := isStoreToField(x, "Store", "coll"); ok && !w.unpublished(base) {
+							_ = st
+							badWhy = "the failing arm can still install the decoded collections"
 							return true
 						}
-					}
-					if st, base, ok := isStoreToField(x, "Store", "coll"); ok && !w.unpublished(base) {
-						_ = st
-						badWhy = "the failing arm can still install the decoded collections"
-						return true
-					}
-					if ret, ok := x.(*ssa.Return); ok {
-						if positiveReturn(f, env, ret) {
-							badWhy = "the failing arm can reach a positive return (" + w.InstrPos(ret) + "): the caller goes on to accept the record"
+						if ret, ok := x.(*ssa.Return); ok {
+							if positiveReturn(f, env, ret) {
+								badWhy = "the failing arm can reach a positive return (" + w.InstrPos(ret) + "): the caller goes on to accept the record"
+							}
+							return true
 						}
-						return true
+						return false
 					}
-					return false
-				}
-				wk.RunBlock(failBlock, nil)
-				if badWhy != "" {
-					r.Bad(rule, key, w.InstrPos(in), "validation does not reject: "+badWhy)
-				} else {
-					r.OK(rule, key, w.InstrPos(in), "the failing arm leads only to rejection (error / not-found / keep scanning and test again)")
+					wk.RunEdge(in.Block(), failIdx, nil)
+					if badWhy != "" {
+						r.Bad(rule, key, w.InstrPos(in), "validation does not reject: "+badWhy)
+					} else {
+						r.OK(rule, key, w.InstrPos(in), "the failing arm leads only to rejection (error / not-found / keep scanning and test again)")
+					}
 				}
 			}
 		})
@@ -872,16 +874,21 @@ func atomPassesWhenTrue(c ssa.Value) bool {
 		case token.NEQ:
 			return false
 		case token.GEQ:
-			return true // offset >= 0
+			// offset >= 0 passes when true; offset >= bound fails when true
+			if k, ok := constInt(x.Y); ok && k == 0 {
+				return true
+			}
+			return false
 		case token.LSS:
 			// offset < bound passes when true; offset < 0 fails when true
 			if k, ok := constInt(x.Y); ok && k == 0 {
 				return false
 			}
 			return true
-		case token.GTR, token.LEQ:
-			// bound-style written the other way round: offset >= bound fails
-			return false
+		case token.LEQ:
+			return true // offset <= bound
+		case token.GTR:
+			return false // offset > bound
 		}
 	}
 	return true
@@ -910,10 +917,10 @@ func positiveReturn(fn *ssa.Function, env *Env, ret *ssa.Return) bool {
 func init() {
 	c02 := []Rule{{"O1", ruleO1}, {"O2b", ruleO2b}, {"O4", ruleO4}, {"O6", ruleO6}, {"O6r", ruleO6r}, {"O3", ruleO3}, {"E1w", ruleE1w}, {"FL1", ruleFL1}}
 	register(&Property{
-		ID:    "C02",
-		Level: "other",
-		Rules: c02,
-		Explanation: "Decides the commit protocol of Flush structurally: O1 every return of Flush yields an error or the root-record writer's own result, the single root-record write comes after every data write and no writing call follows it; O4 the item pass dominates the node pass on the same root, each recursive pass reaches a success return only after writing left subtree, the node itself and the right subtree (or nothing: skip), the node pass writes children before the parent, and both passes skip under the same condition; O6 the root-record writer receives the very map of versions that were pinned, each collection's write receives rnls[name].root of the same name, and the version marshaller emits that version's persisted root location; O7 no iteration of the write loop skips the write; O3 size bookkeeping. Roles (item/node/root writers, passes) are resolved from structure (sinks, magic constants, recursion). NOT decided: that the re-opened contents equal the flushed contents for all histories (needs the codec symmetry of C14 and the tree invariants of C13 as premises).",
+		ID:           "C02",
+		Level:        "other",
+		Rules:        c02,
+		Explanation:  "Decides the commit protocol of Flush structurally: O1 every return of Flush yields an error or the root-record writer's own result, the single root-record write comes after every data write and no writing call follows it; O4 the item pass dominates the node pass on the same root, each recursive pass reaches a success return only after writing left subtree, the node itself and the right subtree (or nothing: skip), the node pass writes children before the parent, and both passes skip under the same condition; O6 the root-record writer receives the very map of versions that were pinned, each collection's write receives rnls[name].root of the same name, and the version marshaller emits that version's persisted root location; O7 no iteration of the write loop skips the write; O3 size bookkeeping. Roles (item/node/root writers, passes) are resolved from structure (sinks, magic constants, recursion). NOT decided: that the re-opened contents equal the flushed contents for all histories (needs the codec symmetry of C14 and the tree invariants of C13 as premises).",
 		ControlSrc:   controlC02,
 		ControlEdits: []ControlEdit{{"Store.Flush", "if zzCtlNever { return nil }"}},
 		Expect: []Expect{
@@ -921,10 +928,10 @@ func init() {
 		},
 	})
 	register(&Property{
-		ID:    "C03",
-		Level: "other",
-		Rules: []Rule{{"O1", ruleO1}, {"O2", ruleO2}, {"O2b", ruleO2b}, {"O3", ruleO3}, {"O4", ruleO4}, {"O5", ruleO5}, {"O5s", ruleScanStep}, {"T1", ruleT1}, {"Y4", ruleLayoutRoot}, {"A-off", ruleAOff}, {"A-mono", ruleAMono}},
-		Explanation: "Decides the structural part of crash atomicity: the root record is the single commit point (O1 last, O2 one straight-line WriteAt of a fully assembled buffer), data is written before it in dependency order (O4), Store.size is advanced only on the success arm of every write and to exactly offset+length (O3), and on open the reader validates every framing field the writer emits before installing the decoded collections (O5: MagicEnd x2, MagicBeg x2, version, inner length = trailer length, offset >= 0, offset < size - minimal record, and A9 length == size - offset), each test's failing arm leading only to rejection or re-test. NOT decided: byte-granular torn writes and adversarial junk imitating a complete self-consistent root record (the README records that trade-off), nor recovery followed by continued use.",
+		ID:           "C03",
+		Level:        "other",
+		Rules:        []Rule{{"O1", ruleO1}, {"O2", ruleO2}, {"O2b", ruleO2b}, {"O3", ruleO3}, {"O4", ruleO4}, {"O5", ruleO5}, {"O5s", ruleScanStep}, {"T1", ruleT1}, {"Y4", ruleLayoutRoot}, {"A-off", ruleAOff}, {"A-mono", ruleAMono}},
+		Explanation:  "Decides the structural part of crash atomicity: the root record is the single commit point (O1 last, O2 one straight-line WriteAt of a fully assembled buffer), data is written before it in dependency order (O4), Store.size is advanced only on the success arm of every write and to exactly offset+length (O3), and on open the reader validates every framing field the writer emits before installing the decoded collections (O5: MagicEnd x2, MagicBeg x2, version, inner length = trailer length, offset >= 0, offset < size - minimal record, and A9 length == size - offset), each test's failing arm leading only to rejection or re-test. NOT decided: byte-granular torn writes and adversarial junk imitating a complete self-consistent root record (the README records that trade-off), nor recovery followed by continued use.",
 		ControlSrc:   controlC02,
 		ControlEdits: []ControlEdit{{"NewStoreEx", "if zzCtlNever { (*Store)(nil).zzCtlAcceptAnyway(nil, 0) }"}},
 		Expect: []Expect{
@@ -949,3 +956,25 @@ func (s *Store) zzCtlAcceptAnyway(data []byte, length uint32) error { // magic t
 	return s.validateAndSetCollections(data, length)
 }
 `
+
+// boolAtoms: the atomic tests a branch condition is made of: the condition itself and, for
+// a bool assembled on several paths (`a && b` assigned to a variable, the result of an
+// inlined helper), the non-constant values flowing into it.
+func boolAtoms(c ssa.Value, pol bool, depth int) []Fact {
+	for {
+		if u, ok := c.(*ssa.UnOp); ok && u.Op == token.NOT {
+			c, pol = u.X, !pol
+			continue
+		}
+		break
+	}
+	out := []Fact{{c, pol}}
+	if ph, ok := c.(*ssa.Phi); ok && depth < 4 {
+		for _, e := range ph.Edges {
+			if _, isK := e.(*ssa.Const); !isK {
+				out = append(out, boolAtoms(e, pol, depth+1)...)
+			}
+		}
+	}
+	return out
+}
